@@ -39,6 +39,8 @@ def check(m, run):
     run.floor('IV3.cache-key-init', 10, 'NURBS x2 keys x3 classes, containers, grid')
     run.floor('IV4.deepcopy-independent', 4, 'memo/attrs obligations')
     run.assume('a list returned by a getter is not mutated by the caller')
+    from . import c09 as _c09
+    _c09.reads_through_getters(m, run)      # a cached view is read only through its lazily filling getter (a direct read sees an empty or stale cache)
 
 
 def iv5(m, run, keep=None):
